@@ -9,7 +9,8 @@ ID = "C20"
 LEVEL = "exploration"
 RULE = ("Histories as generated operation lists over a pool of shared objects (2 correlations objects - PowerLawSD / CustomSD -, "
         "baths built from them at different moments, systems, parameters, process tensors, caller arrays). Operations: "
-        "change a public attribute of a correlations object (temperature, alpha, zeta, cutoff, cutoff_type, j_function); "
+        "change a public attribute of a correlations object (temperature, alpha, zeta, cutoff, cutoff_type, j_function; "
+        "correlation_function of a third pool member, a CustomCorrelations object); "
         "evaluate correlation / spectral_density / eta_function / correlation_2d_integral on a pool member; build a Bath from "
         "a pool member; query a Bath built earlier; run a computation (TEMPO, PT-TEMPO, Gibbs, compute_dynamics, "
         "state_gradient, compute_correlations, PT-TEBD) with pool members and with caller arrays passed C-ordered, F-ordered, "
@@ -33,7 +34,7 @@ TECHNIQUE = "model-based testing of histories: Hypothesis-generated operation se
 LEVEL_TEXT = ("Generated histories of constructions, attribute updates, evaluations and computations on shared objects are replayed "
               "against fresh equal objects; caller arrays in five memory layouts are snapshotted before and after every call.")
 LEVEL_NOTE = "Fresh-object replay is the model; pure functions are compared exactly (1e-12), separate runs of truncating computations within the truncation tolerance 4.1e-6 (they are not bit-reproducible, see RUN_TO_RUN_TOL)."
-ASSUMPTIONS = ["public parameters are the constructor arguments exposed as attributes (temperature, alpha, zeta, cutoff, cutoff_type, j_function)"]
+ASSUMPTIONS = ["public parameters are the constructor arguments exposed as attributes (temperature, alpha, zeta, cutoff, cutoff_type, j_function, correlation_function)"]
 
 LAYOUTS = ["C", "F", "strided", "readonly", "T-of-T"]
 # Two runs of a truncating (TEMPO-type) computation on bit-identical inputs are NOT bit-identical: the tensor-network
@@ -43,9 +44,12 @@ LAYOUTS = ["C", "F", "strided", "readonly", "T-of-T"]
 RUN_TO_RUN_TOL = 100.0 * 4 * 1e-8 + 1e-7
 ATTRS_PL = ["temperature", "alpha", "zeta", "cutoff", "cutoff_type"]
 ATTRS_CU = ["temperature", "cutoff", "cutoff_type", "j_function"]
+ATTRS_CC = ["correlation_function"]
 VALUES = {"temperature": [0.0, 0.02, 0.5, 2.0], "alpha": [0.05, 0.2, 0.4], "zeta": [1.0, 2.0, 3.0], "cutoff": [1.0, 3.0, 5.0],
-          "cutoff_type": ["hard", "exponential", "gaussian"], "j_function": [0, 1, 2]}
+          "cutoff_type": ["hard", "exponential", "gaussian"], "j_function": [0, 1, 2], "correlation_function": [0, 1, 2]}
 JFUNS = [lambda w: 0.2 * w, lambda w: 0.1 * w ** 2, lambda w: 0.3 * w / (1.0 + w * w)]
+CFUNS = [lambda t: 0.2 * np.exp(-abs(t)) * (np.cos(t) - 0.5j * np.sin(t)), lambda t: 0.3 * np.exp(-2.0 * abs(t)) * (1.0 - 0.2j * np.sign(t) * abs(t)),
+         lambda t: 0.1 * np.cos(1.3 * t) - 0.1j * np.sin(1.3 * t)]
 
 
 def layout(a, kind):
@@ -75,9 +79,9 @@ def s_case(draw, tier):
     ops = []
     for _ in range(n):
         kind = draw(st.sampled_from(["set", "set", "eval", "eval", "bath", "eval-bath", "compute", "compute", "make-pt", "make-pt", "use-pt", "use-pt", "use-pt", "alt-system"]))
-        c = draw(st.integers(0, 1))
+        c = draw(st.sampled_from([0, 1, 0, 1, 2]))
         if kind == "set":
-            attr = draw(st.sampled_from(ATTRS_PL if c == 0 else ATTRS_CU))
+            attr = draw(st.sampled_from([ATTRS_PL, ATTRS_CU, ATTRS_CC][c]))
             ops.append({"op": "set", "c": c, "attr": attr, "v": draw(st.integers(0, 3 if attr == "temperature" else 2))})
         elif kind == "eval":
             ops.append({"op": "eval", "c": c, "what": draw(st.sampled_from(["correlation", "spectral_density", "eta", "2d-triangle", "2d-square", "2d-rect"])),
@@ -107,6 +111,8 @@ def s_case(draw, tier):
 
 def _fresh(params):
     import oqupy
+    if params["type"] == "cc":
+        return oqupy.CustomCorrelations(CFUNS[params["correlation_function"]])
     if params["type"] == "pl":
         return oqupy.PowerLawSD(alpha=params["alpha"], zeta=params["zeta"], cutoff=params["cutoff"],
                                 cutoff_type=params["cutoff_type"], temperature=params["temperature"])
@@ -115,6 +121,8 @@ def _fresh(params):
 
 
 def _evaluate(c, what, x):
+    if not hasattr(c, "spectral_density"):       # CustomCorrelations: no spectral density / eta function
+        what = {"spectral_density": "correlation", "eta": "2d-triangle"}.get(what, what)
     if what == "correlation":
         return complex(c.correlation(x))
     if what == "spectral_density":
@@ -142,7 +150,7 @@ def _compute(kind, corr, bath, arrays, pooled=None):
     if kind == "tempo":
         return np.array(oqupy.Tempo(system, bath, par, rho0, 0.0).compute(0.35, **kw).states)
     if kind == "gibbs":
-        T = bath.correlations.temperature
+        T = getattr(bath.correlations, "temperature", 0.0)
         if T <= 0:
             return None
         return np.array(oqupy.gibbs_tempo_compute(system, bath, oqupy.GibbsParameters(4, 1e-8), **kw))
@@ -218,13 +226,14 @@ def run_case(case):
          "temperature": case.get("T0", [0.5, 0.5])[0]},
         {"type": "cu", "j_function": 0, "cutoff": case.get("wc0", 3.0), "cutoff_type": "gaussian",
          "temperature": case.get("T0", [0.5, 0.5])[1]},
+        {"type": "cc", "correlation_function": 0},
     ]
     corrs = [_fresh(p) for p in params]
     baths = []          # (bath object, snapshot of params, coupling operator)
     rho0 = gens.build_dm(case["rho0"])
     H = gens.herm(case["H"])
     O = np.diag([0.5, -0.5]).astype(complex)
-    used = [False, False]
+    used = [False, False, False]
     reuse = False
     for i, op in enumerate(case["ops"]):
         kind = op["op"]
@@ -235,17 +244,18 @@ def run_case(case):
                 for x in (0.1, 0.3):
                     _evaluate(corrs[c], what, x)
             v = VALUES[op["attr"]][op["v"]]
-            if op["attr"] == "j_function":
+            if op["attr"] in ("j_function", "correlation_function"):
+                fa, FUNS = op["attr"], (JFUNS if op["attr"] == "j_function" else CFUNS)
                 # the replaced function object is released by the caller; the new function may then get the SAME id
                 # (CPython re-uses the freed block at once) - provoked deliberately: an identity-keyed cache must not
                 # take the new function for the old one (finding F-20d)
-                old_id = id(corrs[c].j_function)
-                corrs[c].j_function = np.vectorize(JFUNS[v])
+                old_id = id(getattr(corrs[c], fa))
+                setattr(corrs[c], fa, np.vectorize(FUNS[v]))
                 keep = []
                 for _ in range(20):
-                    cand = np.vectorize(JFUNS[v])
+                    cand = np.vectorize(FUNS[v])
                     if id(cand) == old_id:
-                        corrs[c].j_function = cand
+                        setattr(corrs[c], fa, cand)
                         out.label("new-function-reuses-id-of-replaced-one")
                         break
                     keep.append(cand)
@@ -268,8 +278,6 @@ def run_case(case):
             reuse = True
         elif kind == "eval":
             c = op["c"]
-            if params[c]["temperature"] == 0 and False:
-                continue
             reuse |= used[c]
             got = _evaluate(corrs[c], op["what"], op["x"])
             want = _evaluate(_fresh(params[c]), op["what"], op["x"])
